@@ -155,6 +155,9 @@ def build_crystal(rec):
         uc = UnitCell(d)
     n = rec["n"]
     pos = np.array([[x / n for x in s["p"]] for s in rec["asym"]], dtype=float)
+    if rec.get("decimals"):
+        # coordinates as they come out of a file: exact positions rounded to a number of decimals
+        pos = np.round(pos, int(rec["decimals"]))
     els = [Element.from_atomic_number(s["z"]) for s in rec["asym"]]
     labels = [s["label"] for s in rec["asym"]]
     kw = {}
@@ -175,21 +178,28 @@ def project_rows(d, n, gram, u, with_cell=False, max_cc=60):
     rows = []
     frac = np.asarray(d["frac_pos"], dtype=float)
     for i in range(len(frac)):
-        p = []
-        for x in frac[i]:
-            k, o = to_grid(float(x), n, 1e-6)
-            p.append(k)
-            off |= o
-        occ, o = to_grid(float(d["occupation"][i]), 12, 1e-9)
-        off |= o
-        row = {"p": p, "asym": int(d["asym_atom"][i]) + 1, "op": int(d["symop"][i]), "z": int(d["element"][i]),
-               "label": str(d["label"][i]), "occ": occ}
+        cell = [0, 0, 0]
         if with_cell:
             cell = []
             for x in d["cell"][i]:
                 k, o = to_grid(float(x), 1, 1e-9)
                 cell.append(k)
                 off |= o
+        p, fl, pr = [], [], []
+        for c, x in enumerate(frac[i]):
+            # position relative to the reported cell: its integer part is shipped separately (fl) so that TLC decides
+            # "in [0,1)"; the grid point is taken modulo the lattice (0.9999999999997 is the site 0, not the site N)
+            xr = float(x) - cell[c]
+            k, o = to_grid(xr, n, 1e-6)
+            fl.append(int(math.floor(xr)) if math.isfinite(xr) else 99)
+            p.append(k % n + n * cell[c])
+            pr.append(k + n * cell[c])           # the grid point the reported float actually is (for cart_pos)
+            off |= o
+        occ, o = to_grid(float(d["occupation"][i]), 12, 1e-9)
+        off |= o
+        row = {"p": p, "fl": fl, "pr": pr, "asym": int(d["asym_atom"][i]) + 1, "op": int(d["symop"][i]), "z": int(d["element"][i]),
+               "label": str(d["label"][i]), "occ": occ}
+        if with_cell:
             row["cell"] = cell
         rows.append(row)
     cc = []
